@@ -82,10 +82,10 @@ def model_one(binp, prog, limit=60):
     o = run_model_chunk((binp, [prog], limit))
     if o["rc"] == -99:
         return None
-    if o["rc"] != 0:
-        return "harness exit %s: %s" % (o["rc"], o["err"][-600:])
     if o["out"] and o["out"][0].startswith("FAIL"):
         return o["out"][0][5:]
+    if o["rc"] != 0:
+        return "harness exit %s (sanitizer report): %s" % (o["rc"], " ".join(o["err"].split())[-600:])
     return ""
 
 
